@@ -99,7 +99,15 @@ def encode(ip, s, encoding='utf-8', errors='strict'):
         return s.encode(encoding)
     ss = ops.as_sseq(s)
     if ss.items is None:
-        raise Unsupported('encode of symbolic-length str')
+        # text of symbolic length: its UTF-8 encoding is an uninterpreted function of the text
+        from . import models
+        import z3 as _z3
+        f = _z3.Function('utf8', IntSeq, IntSeq)
+        fl = _z3.Function('utf8.len', IntSeq, _z3.IntSort())
+        t = ss.seq_term()
+        ip.ctx.fact(fl(t) >= 0)
+        ip.ctx.ufs.add('utf8')
+        return SBytes(seq=SeqPart(f(t), fl(t)))
     for c in ss.items:
         if not isinstance(c, int) and not ip.ctx.branch(c < 128):
             raise Unsupported('encode of non-ASCII symbolic character')
